@@ -119,7 +119,7 @@ impl Prop for P {
         let e = Exp::parse_str(parts[1]);
         let ws = parts[2] == "ws";
         let ranges: Vec<Vec<(u8, Vec<u8>)>> = parts[3].split('/').map(|r| parse_calls(r.trim())).collect();
-        let out = exec_build("extend", "raw_loop", 0, 10_000, 2, &ops);
+        let out = exec_build("extend", "raw_loop", 0, drows(), dcols(), &ops);
         let bytes = out.bytes.unwrap();
         let f = Fst::new(bytes.clone()).unwrap();
         let map = fst::Map::new(bytes.clone()).unwrap();
